@@ -14,7 +14,7 @@
    object that its registrations are worthless (the endpoint only gives a connection up when READING
    fails).  UpdateSignal's loop over its snapshot is modelled entry by entry ([emit_go]): a healthy
    connection is written to; a write that fails with anything but io.EOF is skipped (the error is
-   remembered, the loop goes on); a write that fails with io.EOF makes UpdateSignal call
+   remembered, the loop goes on; a transient failure lasts for the Event writes of one emission); a write that fails with io.EOF makes UpdateSignal call
    removeSignalUser(user id, connection) at once — the table changes in the middle of the loop, the
    snapshot does not. *)
 From QV Require Import Signals.
@@ -27,8 +27,8 @@ Inductive rop :=
 | RBreak (c : nat) (k : N).        (* from now on, writes of the object to connection c: 0 fail (EPIPE, reset, down
                                       direction closed: any error but io.EOF); 1 fail with io.EOF; 2 the whole
                                       connection is closed (writes fail; the closers of its handlers forget its
-                                      registrations concurrently, in any order); 3 the next Event write fails once
-                                      (not io.EOF), later ones succeed; 4 writes are slow (they block for a while) *)
+                                      registrations concurrently, in any order); 3 the Event writes of the next emission
+                                      that reaches c fail (not io.EOF), later ones succeed; 4 writes are slow (they block for a while) *)
 
 Inductive robs :=
 | OAck                             (* Reply *)
@@ -40,7 +40,7 @@ Record rstate := {
   r_table : list user;
   r_dead : bool;
   r_bad : list (nat * N);   (* connections every write to which fails: 1 = with io.EOF, anything else = another error *)
-  r_once : list nat;        (* connections whose next Event write fails (one entry per failure to come) *)
+  r_once : list nat;        (* connections with a transient failure to come (one entry per emission that will fail) *)
   r_fuzzy : bool }.         (* a connection was closed: its entries leave the table by swap-removes of concurrent
                                closers, so the ORDER of the table (not its content for healthy connections) is open *)
 Definition rof (t : list user) : rstate := {| r_table := t; r_dead := false; r_bad := []; r_once := []; r_fuzzy := false |}.
@@ -65,19 +65,31 @@ Definition drop_user (t : list user) (c : nat) (uid : N) : list user :=
   | Some i => swap_remove t i
   | None => t
   end.
-(* the delivery loop of UpdateSignal over its snapshot: table, pending single failures, frames written *)
-Fixpoint emit_go (snap t : list user) (bad : list (nat * N)) (once : list nat) : list user * list nat * list (nat * N) :=
+(* the delivery loop of UpdateSignal over its snapshot: table afterwards, frames written.  A transient failure
+   lasts for one emission: every Event write of that emission to the connection fails (so that what is sent
+   does not depend on the order of the table), later emissions reach it again. *)
+Fixpoint emit_go (snap t : list user) (bad : list (nat * N)) (once : list nat) : list user * list (nat * N) :=
   match snap with
-  | [] => (t, once, [])
+  | [] => (t, [])
   | u :: r =>
       match bad_of bad (u_conn u) with
       | Some k => if k =? 1 then emit_go r (drop_user t (u_conn u) (u_uid u)) bad once
                   else emit_go r t bad once
-      | None => if existsb (Nat.eqb (u_conn u)) once then emit_go r t bad (del1 (u_conn u) once)
-                else let '(t', o', l) := emit_go r t bad once in (t', o', (u_conn u, u_mid u) :: l)
+      | None => if existsb (Nat.eqb (u_conn u)) once then emit_go r t bad once
+                else let '(t', l) := emit_go r t bad once in (t', (u_conn u, u_mid u) :: l)
       end
   end.
-
+(* the pending transient failures after the emission: one less for every connection the emission tried to write to *)
+Fixpoint once_after (snap : list user) (bad : list (nat * N)) (hit once : list nat) : list nat :=
+  match snap with
+  | [] => once
+  | u :: r =>
+      match bad_of bad (u_conn u) with
+      | Some _ => once_after r bad hit once
+      | None => if existsb (Nat.eqb (u_conn u)) hit then once_after r bad hit once
+                else once_after r bad (u_conn u :: hit) (del1 (u_conn u) once)
+      end
+  end.
 Definition targets (sig : N) (t : list user) : list (nat * N) :=
   map (fun u => (u_conn u, u_mid u)) (filter (fun u => u_sig u =? sig) t).
 
@@ -98,8 +110,10 @@ Definition raw_step (g : scfg) (st : rstate) (o : rop) : rstate * robs :=
       | None => (st, ORefused)
       end
   | REmit sig p =>
-      let '(t', o', l) := emit_go (filter (fun u => u_sig u =? sig) (r_table st)) (r_table st) (r_bad st) (r_once st) in
-      ({| r_table := t'; r_dead := r_dead st; r_bad := r_bad st; r_once := o'; r_fuzzy := r_fuzzy st |}, OSent l)
+      let snap := filter (fun u => u_sig u =? sig) (r_table st) in
+      let '(t', l) := emit_go snap (r_table st) (r_bad st) (r_once st) in
+      ({| r_table := t'; r_dead := r_dead st; r_bad := r_bad st; r_once := once_after snap (r_bad st) [] (r_once st);
+          r_fuzzy := r_fuzzy st |}, OSent l)
   | RBreak c k =>
       ({| r_table := r_table st; r_dead := r_dead st;
           r_bad := if (k =? 0) || (k =? 1) || (k =? 2) then (c, k) :: r_bad st else r_bad st;
